@@ -662,6 +662,12 @@ impl Statement {
     fn r#delete(parse: &mut BasicParser) -> Result<Statement> {
         let column = parse.col.clone();
         let (from, to) = parse.expect_line_number_range()?;
+        // A bare DELETE is refused; an explicit range such as "0-" is not.
+        if let (Expression::Single(from_col, _), Expression::Single(to_col, _)) = (&from, &to) {
+            if from_col.is_empty() && to_col.is_empty() {
+                return Err(error!(IllegalFunctionCall, ..&column; "EXPECTED LINE NUMBER RANGE"));
+            }
+        }
         Ok(Statement::Delete(column, from, to))
     }
 
